@@ -63,6 +63,10 @@ def extract(repo=REPO, cfg="dev", no_cache=False):
     slot_lock = None
     try:
         if not no_cache and os.path.exists(os.path.join(out, "OK")):
+            try:
+                os.utime(out)       # recently used: not a candidate for pruning by a parallel run
+            except OSError:
+                pass
             return out, True
         if os.path.exists(out):
             shutil.rmtree(out)
@@ -110,10 +114,18 @@ def extract(repo=REPO, cfg="dev", no_cache=False):
             fh.write("%s %.1fs\n" % (nonce, time.time() - t0))
         # prune old caches (keep the 6 most recent and whatever was extracted in the last 45 minutes: parallel runs over
         # many scratch copies would otherwise evict each other's facts between two checks of the same copy)
-        alld = sorted((d for d in glob.glob(os.path.join(WORK, "facts", "*")) if os.path.isdir(d)), key=os.path.getmtime)
-        for d in alld[:-6]:
-            if time.time() - os.path.getmtime(d) > 45 * 60:
-                shutil.rmtree(d, ignore_errors=True)
+        def _mt(d):
+            try:
+                return os.path.getmtime(d)
+            except OSError:
+                return 0.0      # removed meanwhile by a parallel run's pruning
+        try:
+            alld = sorted((d for d in glob.glob(os.path.join(WORK, "facts", "*")) if os.path.isdir(d)), key=_mt)
+            for d in alld[:-6]:
+                if d != out and time.time() - _mt(d) > 45 * 60:
+                    shutil.rmtree(d, ignore_errors=True)
+        except OSError:
+            pass
         return out, False
     finally:
         if slot_lock is not None:
